@@ -481,6 +481,21 @@ impl TryFrom<&mut Peekable<Lexer>> for ParserNode {
                         }
                         Type::JumpLinkR(inst) => {
                             let reg1 = lex.get_reg()?;
+                            // `jalr rs`: nothing but the end of the line (or a comment) follows.
+                            // It is only looked at, so that it is not part of the instruction.
+                            let ahead = lex.peek_any()?;
+                            if matches!(
+                                ahead.token_type(),
+                                TokenType::Newline | TokenType::Comment(_)
+                            ) {
+                                return Ok(ParserNode::new_jump_link_r(
+                                    With::new(inst, next_node.clone()),
+                                    With::new(Register::X1, next_node.clone()),
+                                    reg1,
+                                    With::new(Imm::new(0), next_node),
+                                    lex.raw_token,
+                                ));
+                            }
                             let next = lex.get_any()?;
                             return if let Ok(rs1) = next.as_reg() {
                                 let imm = lex.get_imm()?;
@@ -523,12 +538,14 @@ impl TryFrom<&mut Peekable<Lexer>> for ParserNode {
                                     lex.raw_token,
                                 ))
                             } else {
-                                Ok(ParserNode::new_jump_link_r(
-                                    With::new(inst, next_node.clone()),
-                                    With::new(Register::X1, next_node.clone()),
-                                    reg1,
-                                    With::new(Imm::new(0), next_node),
-                                    lex.raw_token,
+                                // anything else behind the register is not an operand of jalr
+                                Err(Expected(
+                                    vec![
+                                        ExpectedType::Register,
+                                        ExpectedType::Imm,
+                                        ExpectedType::LParen,
+                                    ],
+                                    Box::new(next),
                                 ))
                             };
                         }
